@@ -232,7 +232,7 @@ def run(tier, pid):
     if tier == "quick":
         plan = [
             ("rt_exp_faults.cfg", ALL, {}),
-            ("rt_exp_faults1.cfg", ALL, {}),
+            ("rt_exp_faults1.cfg", ("ext", "py26", "stream", "rtw"), {}),
             ("rt_exp_details.cfg", ("ext", "tt"), {}),
             ("rt_exp_nested.cfg", ("ext",), {}),
             ("rt_exp_triples.cfg", ("ext", "py27", "stream"), {}),
